@@ -4,7 +4,8 @@ use crate::pair::{Cfg, World};
 use crate::util::*;
 
 fn g_cfg(r: &mut Rng, mode: &str) -> (Cfg, Vec<u64>) {
-    let rwnd = r.pick(&[1u32, 2, 2, 3, 3, 4, 8]);
+    // mostly tiny windows (so that scripts of a few dozen labels fill them); now and then one beyond 8 and 16 bits
+    let rwnd = if r.chance(1, 12) { r.pick(&[257u32, 258, 65_537, 65_538, 300]) } else { r.pick(&[1u32, 2, 2, 3, 3, 4, 8]) };
     let threshold = r.pick(&[1u32, 1, 2, 3, rwnd, rwnd + 1, 2 * rwnd, rwnd.saturating_sub(1).max(1)]);
     let accept_q = r.pick(&[1usize, 1, 2, 4]);
     let dgram_q = r.pick(&[1usize, 2, 3]);
@@ -35,7 +36,7 @@ fn lp(v: &mut Vec<u64>, b: &[u8]) {
     v.extend(b.iter().map(|&x| u64::from(x)));
 }
 
-pub fn one_script(r: &mut Rng, nlabels: usize, mode: &str) -> (Vec<u64>, Vec<u64>) {
+pub fn one_script(r: &mut Rng, nlabels: usize, mode: &str, big_left: &mut u32) -> (Vec<u64>, Vec<u64>) {
     let (ca, ea) = g_cfg(r, mode);
     let (cb, eb) = g_cfg(r, mode);
     let bind_enabled = [ca.bind_q > 0, cb.bind_q > 0];
@@ -120,7 +121,7 @@ pub fn one_script(r: &mut Rng, nlabels: usize, mode: &str) -> (Vec<u64>, Vec<u64
                 let pending: Vec<usize> = (0..w.n_opens(e)).filter(|&k| w.open_pending(e, k)).collect();
                 if pending.len() < 2 {
                     let mut l = vec![10, eu, r.pick(&[0u64, 80, 65535])];
-                    let host: Vec<u8> = (0..r.pick(&[0usize, 1, 3])).map(|_| r.pick(b"abc.")).collect();
+                    let host: Vec<u8> = (0..r.pick(&[0usize, 1, 3, 3, 1, 255, 300])).map(|_| r.pick(b"abc.")).collect();
                     lp(&mut l, &host);
                     cands.push((if mode.contains("reuse") { 8 } else { 3 }, l));
                 }
@@ -133,7 +134,7 @@ pub fn one_script(r: &mut Rng, nlabels: usize, mode: &str) -> (Vec<u64>, Vec<u64
                     let hl = r.pick(&[0usize, 1, 2, 255, 256]);
                     let host: Vec<u8> = (0..hl).map(|i| b'a' + (i % 26) as u8).collect();
                     lp(&mut l, &host);
-                    let data = g_data(r, 9);
+                    let data = if r.chance(1, 80) && *big_left > 0 { *big_left -= 1; g_big(r, 9) } else { g_data(r, 9) };
                     lp(&mut l, &data);
                     cands.push((wd, l));
                 }
@@ -288,7 +289,7 @@ pub fn single_script(r: &mut Rng, nlabels: usize, big: bool) -> (Vec<u64>, Vec<u
 
 /// one established stream bridged to a scripted local side at endpoint A (and sometimes at
 /// B too); the peer is a plain application or another bridge
-pub fn bridge_script(r: &mut Rng, nlabels: usize) -> (Vec<u64>, Vec<u64>) {
+pub fn bridge_script(r: &mut Rng, nlabels: usize, big: bool) -> (Vec<u64>, Vec<u64>) {
     let (ca, ea) = g_cfg(r, "single");
     let (cb, eb) = g_cfg(r, "single");
     let mut case = vec![30u64, 1];
@@ -321,7 +322,7 @@ pub fn bridge_script(r: &mut Rng, nlabels: usize) -> (Vec<u64>, Vec<u64>) {
             }
             tag = tag.wrapping_add(1);
             let mut l = vec![32, k, 0];
-            let d = g_data(r, tag);
+            let d = if big { g_big(r, tag) } else { g_data(r, tag) };
             lp(&mut l, &d);
             cands.push((5, l));
             cands.push((1, vec![32, k, 1]));
@@ -335,10 +336,10 @@ pub fn bridge_script(r: &mut Rng, nlabels: usize) -> (Vec<u64>, Vec<u64>) {
         if !both && w.stream_alive(1, 0) {
             tag = tag.wrapping_add(1);
             let mut l = vec![13, 1, 0];
-            let d = g_data(r, tag);
+            let d = if big { g_big(r, tag) } else { g_data(r, tag) };
             lp(&mut l, &d);
             cands.push((6, l));
-            cands.push((6, vec![15, 1, 0, r.pick(&[1u64, 2, 8, 8])]));
+            cands.push((6, vec![15, 1, 0, if big { r.pick(&[1u64, 1000, 100_000, 200_000]) } else { r.pick(&[1u64, 2, 8, 8]) }]));
             cands.push((1, vec![16, 1, 0]));
             cands.push((1, vec![17, 1, 0]));
             if w.link_len(0) > 0 {
@@ -376,7 +377,9 @@ pub fn generate(a: &Args, out: &mut Out) {
     let mut r = Rng(a.seed ^ 0x30);
     if a.mode.contains("bridge") {
         for k in 0..a.n {
-            let (case, res) = bridge_script(&mut r, if k % 4 == 0 { 100 } else { 40 });
+            // one script in forty-eight (a bounded number per run) feeds the bridge chunks of up to 70 kB
+            let big = (k % 48 == 0 || k < 4) && k < 48 * 24;
+            let (case, res) = bridge_script(&mut r, if big { 30 } else if k % 4 == 0 { 100 } else { 40 }, big);
             out.emit(&case, &res);
         }
         return;
@@ -384,15 +387,17 @@ pub fn generate(a: &Args, out: &mut Out) {
     if a.mode.contains("single") {
         for k in 0..a.n {
             // one script in sixty-four (and the first) moves big payloads
-            let big = k % 64 == 0;
+            let big = (k % 64 == 0 || k < 2) && k < 64 * 24;
             let (case, res) = single_script(&mut r, if big { 24 } else if k % 4 == 0 { 120 } else { 40 }, big);
             out.emit(&case, &res);
         }
         return;
     }
+    // big datagram payloads: a bounded number per run (they make the traces long)
+    let mut big_left = 40u32;
     for k in 0..a.n {
         let nl = if k % 5 == 0 { 80 } else { 30 };
-        let (case, res) = one_script(&mut r, nl, &a.mode);
+        let (case, res) = one_script(&mut r, nl, &a.mode, &mut big_left);
         out.emit(&case, &res);
     }
 }
